@@ -4,6 +4,8 @@ import os
 import vlib
 
 PROPS = "Properties_C14"
+NDEBUG_SAMPLE = 2500  # quick tier: this many of the cases, evenly spread
+NDEBUG_TOO = True     # the library\'s normal build compiles assertions out: the same cases run against that build too
 EXTRA_PROPS = ["Properties_errno",       # errno -> status table regenerated from errno_status.c on every run
                "Properties_leaf_copy"]   # zix_get_block_size and the stack-buffer size re-translated from the C source on every run
 
